@@ -53,6 +53,7 @@ Rewrite rules (closed list, every application logged with source line):
       `let a: T = vx_any();` for the named locals the suffix reads (arbitrary values) -- an over-approximation of the prefix
   T   `//@extract file=F impl=I fn=f default_file=G default_impl=J`: when impl I does not define f, the trait's default
       body (impl J in G) is extracted instead -- Rust's own method resolution
+  N11 (opt-in) `E.and_then(|p| B)` on an Option -> `match` (definition)
   A   arm focus (see //@arms)
   P   prefix focus (//@cut before=/re/): the function's statements from the anchor (a top-level
       statement) to the end are replaced by `return self.vx_rest()`, a stub with no contract
@@ -1038,6 +1039,31 @@ def desugar_collect_chains(text, log, relfile, line):
     raise VxError("N10: did not reach a fixpoint")
 
 
+def desugar_and_then(text, log, relfile, line):
+    """Rule N11 (opt-in, pre-pass, innermost first): `E.and_then(|p| B)` on an Option -> `(match E { Some(p) => B, None => None })`"""
+    for _round in range(20):
+        toks = code_toks(tokenize(text))
+        n = len(toks)
+        cand = None
+        for i, t in enumerate(toks):
+            if t.kind == "ident" and t.text == "and_then" and i > 0 and toks[i - 1].text == "." and i + 2 < n \
+                    and toks[i + 1].text == "(" and toks[i + 2].text == "|":
+                pat, body, c = _closure_parts(toks, text, i + 1)
+                if "and_then" in body:
+                    continue
+                rs = _recv_start(toks, i - 1)
+                cand = (rs, c, i, pat, body)
+                break
+        if cand is None:
+            return text
+        rs, c, i, pat, body = cand
+        recv = text[toks[rs].start:toks[i - 1].start].strip()
+        repl = "(match %s { Some(%s) => %s, None => None })" % (recv, pat, body)
+        log.append(dict(rule="N11", file=relfile, line=line, before=re.sub(r"\s+", " ", text[toks[rs].start:toks[c].end])[:160], after=repl[:160]))
+        text = text[:toks[rs].start] + repl + text[toks[c].end:]
+    raise VxError("N11: did not reach a fixpoint")
+
+
 def rule_N7(src, lo, hi, enabled):
     """E.is_some_and(|p| B) -> (match E { Some(p) => B, None => false })
        E.is_none_or(|p| B)  -> (match E { Some(p) => B, None => true })   (definitions of the std methods)"""
@@ -1354,7 +1380,7 @@ def loop_headers(body):
 # --------------------------------------------------------------------------------------
 # vspec processing
 # --------------------------------------------------------------------------------------
-ALL_RULES = ["D1", "D2", "D3", "D5", "D6", "R1", "N1", "N2", "N3", "N4", "N5", "N6", "N7", "N8", "N9", "N10"]
+ALL_RULES = ["D1", "D2", "D3", "D5", "D6", "R1", "N1", "N2", "N3", "N4", "N5", "N6", "N7", "N8", "N9", "N10", "N11"]
 KV_RE = re.compile(r'(\w+)=("([^"]*)"|\S+)')
 
 
@@ -1507,7 +1533,7 @@ class Gen:
             rel = kv["default_file"]
             src = self.src(rel)
             loc = find_fn(src, name, kv.get("default_impl"), 0)
-        enabled = set(ALL_RULES) - {"N8", "N10"}   # N8 (Option::map) and N10 (collect chains) are opt-in
+        enabled = set(ALL_RULES) - {"N8", "N10", "N11"}   # N8 (Option::map) and N10 (collect chains) are opt-in
         maps, sigmaps, arms, cut = [], [], None, None
         from_after = None
         requires, ensures = [], []
@@ -1611,6 +1637,10 @@ class Gen:
             hi = lo + len(new_body)
         if "N6" in enabled and re.search(r"\.iter\(\)\s*\.(any|filter|position)\(", src[lo:hi]):
             new_body = desugar_iter_chains(src[lo:hi], self.log, rel, fn_line)
+            src = src[:lo] + new_body + src[hi:]
+            hi = lo + len(new_body)
+        if "N11" in enabled and ".and_then(" in src[lo:hi]:
+            new_body = desugar_and_then(src[lo:hi], self.log, rel, fn_line)
             src = src[:lo] + new_body + src[hi:]
             hi = lo + len(new_body)
         if "N10" in enabled and re.search(r"\.collect\s*(::|\()", src[lo:hi]):
